@@ -40,18 +40,49 @@ package nfa
 //@   ensures @descending unbox(unbox(r.Val, "comb.List")[0].Val, "rune") > unbox(unbox(r.Val, "comb.List")[2].Val, "rune") ==> m.errors != nil
 
 //@ func runeRangesToNFA(neg bool, ranges ...[2]rune) (*auto.NFA, []rune)
-//@   opaque
+//@   assumes @A-NONUL forall k int :: {ranges[k]} 0 <= k && k < len(ranges) ==> ranges[k][0] > 0 && ranges[k][1] <= 1114111
+//@   loop[0] invariant nfa != nil
+//@   loop[1] invariant nfa != nil
+//@   loop[2] invariant nfa != nil && r >= g[0] && g[0] > 0 && g[1] <= 1114111
+//@   ensures result0 != nil
 
 // char_group --> "[" "^"? char_group_item+ "]": C14 - no set of characters in brackets makes the mapper panic
 // (the characters carried in an item's bag are the runes parsed from the pattern: any code point, not only ASCII)
 //@ func (m *mappers) ToCharGroup(r comb.Result) (comb.Result, bool)
 //@   requires m != nil
+//@   callsite Runes assumes @A-TABLE len(result) == 128
+//@   loop[0] invariant len(charMap) == 128 && (forall k int :: {others[k]} 0 <= k && k < len(others) ==> others[k] >= 128)
+//@   loop[1] invariant len(charMap) == 128 && (forall k int :: {others[k]} 0 <= k && k < len(others) ==> others[k] >= 128)
+//@   loop[2] invariant nfa != nil && (forall k int :: {others[k]} 0 <= k && k < len(others) ==> others[k] >= 128)
+//@   loop[3] invariant nfa != nil
 //@   assumes @L-COMB typeis(r.Val, "comb.List") && len(unbox(r.Val, "comb.List")) == 4 && typeis(unbox(r.Val, "comb.List")[2].Val, "comb.List")
 //@   assumes @L-COMB forall k int, j int :: 0 <= k && k < len(unbox(unbox(r.Val, "comb.List")[2].Val, "comb.List"))
 //@     && typeis(unbox(unbox(r.Val, "comb.List")[2].Val, "comb.List")[k].Bag[bagKeyChars], "[]rune")
 //@     && 0 <= j && j < len(unbox(unbox(unbox(r.Val, "comb.List")[2].Val, "comb.List")[k].Bag[bagKeyChars], "[]rune"))
 //@     ==> unbox(unbox(unbox(r.Val, "comb.List")[2].Val, "comb.List")[k].Bag[bagKeyChars], "[]rune")[j] >= 0
 //@   ensures result1
+
+// C02: no character of a class, of a negated class or of "." is turned into an empty move. The ASCII table starts at
+// NUL, and NUL is the automata library's epsilon symbol.
+//@ func empty() *auto.NFA
+//@   opaque
+//@   fresh-result
+//@   ensures result != nil
+//@ func (m *mappers) ToAnyChar(r comb.Result) (comb.Result, bool)
+//@   requires m != nil
+//@   ensures result1
+//@ func containsRune(r rune, runes []rune) bool
+//@   pure
+//@ func includesRune(r rune, ranges ...[2]rune) bool
+//@   pure
+//@ func runesToNFA(neg bool, runes ...rune) (*auto.NFA, []rune)
+//@   assumes @A-NONUL forall k int :: {runes[k]} 0 <= k && k < len(runes) ==> runes[k] != 0
+//@   loop[0] invariant nfa != nil
+//@   loop[1] invariant nfa != nil
+//@   ensures result0 != nil
+//@ func runeToNFA(r rune) *auto.NFA
+//@   assumes @A-NONUL r != 0
+//@   ensures result != nil
 
 // Parse: any recorded semantic error and any syntax failure is returned; success never comes with a nil automaton.
 //@ func Parse(regex string) (*auto.NFA, error)
